@@ -108,7 +108,11 @@ def observe(env, progs, target="native", workers=12, solo=()):
             for i, x in zip(g, grp):
                 res[i] = x
     else:
-        res = core.pmap(lambda t: build_and_run(env, t, target), texts, workers=workers)
+        res = list(core.pmap(lambda t: build_and_run(env, t, target), texts, workers=workers))
+    # a timeout observed while many programs run side by side is confirmed alone before it counts
+    for i, (o, r) in enumerate(res):
+        if (r is not None and r["cls"] == "TIMEOUT") or o["cls"] == "HANG":
+            res[i] = build_and_run(env, texts[i], target)
     obs = []
     for (prog, name), text, (o, r) in zip(progs, texts, res):
         ob = {"name": name, "text": text, "prog": prog, "compile": o["cls"]}
